@@ -103,6 +103,7 @@ class C03(Prop):
         c["op"] = "put"
         akind = rng.choice(["f", "f", "i", "b", "O"])
         c["array"] = dict(c["array"], vkind=akind)
+        c["array"].pop("vdtype", None)     # (the property speaks about dtype kinds; narrow dtypes of a kind are not its subject)
         c["cast"] = rng.random() < 0.5
         if c["cast"]:
             c["rkind"] = rng.choice(["f", "i", "b", "O"])
